@@ -1,18 +1,102 @@
 """C07 — a scenario's settings determine its results exactly.
 
-Probes (change_runspecs reaches model.starttime; run specs of a scenario file survive instantiate_model)
--> Gen obligations; correspondence of the Lean resolution/application model (Drive/C07) with the real code
-over kind (constants / points / run specs) x channel (dict registration with base values, JSON files spread
-over two files, session settings, REST /run settings) x model type (SD DSL, XMILE-sourced); reference
-check: the real results must equal those of the model BUILT DIRECTLY with the effective values and
-simulated from start to stop with dt.
+Probes (change_runspecs reaches model.starttime; run specs of a scenario file survive instantiate_model; a
+scenario without an own constants/points block gets its OWN dictionary, not the manager's base dictionary)
+-> Gen obligations; correspondence of the Lean resolution/application model and of the Lean manager machine
+(Drive/C07) with the real code over kind (constants / points / run specs) x channel (dict registration with
+base values, scenario files — JSON and YAML, base values spread over 1..4 files read in any order —, session
+settings, REST /run settings) x model type (SD DSL, XMILE-sourced: compiled from a .stmx by the repo's
+compiler) x value form (float, int, string = the `eval` path); reference check: the real results must equal
+those of the model BUILT DIRECTLY with the effective values and simulated from start to stop with dt — for
+the scenario that was addressed AND for its siblings (registered before / after the settings, with or
+without own overrides), which must still carry `own ⊕ base` with the manager's registered base values.
 """
-import json, os, sys, shutil, contextlib, io, textwrap
+import json, os, sys, shutil, contextlib, io, textwrap, copy
 from common import *
-from props import c06 as K
 
-DEF_CONST, DEF_PTS, DEF_RS = K.DEF_CONST, K.DEF_PTS, K.DEF_RS
-CONSTS, POINTS, EQS = K.CONSTS, K.POINTS, K.EQS
+# the harness model (self-contained: props/c06.py started from the same model but evolves on its own)
+CONSTS = ["c0", "c1", "c2"]
+POINTS = ["p0", "p1"]
+EQS = ["s", "f", "h"]
+DEF_CONST = {0: 11, 1: 12, 2: 13}
+DEF_PTS = {0: 21, 1: 22}
+DEF_RS = (0, 4, 2)          # start, stop, dt-code (dt = code / 2)
+
+
+class K:
+    """model builder, direct-model oracle and line-protocol helpers"""
+    @staticmethod
+    def pts_val(v):
+        return [[0.0, float(v)], [10.0, float(v) + 5.0]]
+
+    @staticmethod
+    def pts_code(lst):
+        return int(lst[0][1])
+
+    @staticmethod
+    def build(consts, pts, rs):
+        """The model built directly with the given values (ids -> value codes)."""
+        from BPTK_Py import Model
+        from BPTK_Py import sd_functions as sd
+        m = Model(starttime=float(rs[0]), stoptime=float(rs[1]), dt=rs[2] / 2.0, name="c07")
+        s = m.stock("s"); f = m.flow("f"); h = m.converter("h")
+        g0 = m.converter("g0"); g1 = m.converter("g1")
+        cs = [m.constant(n) for n in CONSTS]
+        for k, n in enumerate(POINTS):
+            m.points[n] = K.pts_val(pts[k])
+        for k in range(3):
+            cs[k].equation = float(consts[k])
+        g0.equation = sd.lookup(sd.time(), "p0")
+        g1.equation = sd.lookup(sd.time(), "p1")
+        f.equation = cs[0] + g0 * cs[1]
+        h.equation = cs[2] * g1
+        s.equation = f
+        s.initial_value = 0.0
+        return m
+
+    _cache = {}
+
+    @staticmethod
+    def oracle_run(consts, pts, rs):
+        """results of a freshly built model with these settings, start..stop with dt"""
+        key = (tuple(sorted(consts.items())), tuple(sorted(pts.items())), tuple(rs))
+        if key not in K._cache:
+            m = K.build(consts, pts, rs)
+            n = int(round((rs[1] - rs[0]) / (rs[2] / 2.0)))
+            grid = [rs[0] + k * (rs[2] / 2.0) for k in range(n + 1)]
+            K._cache[key] = {eq: {t: float(m.equation(eq, t)) for t in grid} for eq in EQS}
+        return K._cache[key]
+
+    @staticmethod
+    def st(d):
+        return ",".join(f"{k}:{v}" for k, v in d.items()) or "-"
+
+    @staticmethod
+    def opt(x):
+        return "-" if x is None else str(x)
+
+    @staticmethod
+    def dict_args(d):
+        return f"{K.st(d.get('consts') or {})} {K.st(d.get('pts') or {})} {K.opt(d.get('start'))} {K.opt(d.get('stop'))} {K.opt(d.get('dt'))}"
+
+    @staticmethod
+    def first_diff(got, want):
+        for eq in want:
+            if eq not in got:
+                return f"equation {eq} missing from the results (fresh model: {dict(list(want[eq].items())[:3])}…)"
+            for t in want[eq]:
+                if t not in got[eq]:
+                    return f"{eq}: no value at t={t} (index {sorted(got[eq])[:6]}…, fresh model index {sorted(want[eq])[:6]}…)"
+                if got[eq][t] != want[eq][t]:
+                    return f"{eq}({t}) = {got[eq][t]} but the fresh model gives {want[eq][t]}"
+            extra = [t for t in got[eq] if t not in want[eq]]
+            if extra:
+                return f"{eq}: extra index {extra[:4]} (fresh model index {sorted(want[eq])[:6]}…)"
+        return "?"
+
+
+XPOINTS = ["g0", "g1"]          # graphical functions of the XMILE model
+XRS = (0, 4, 1)                 # its sim_specs (dt code = dt * 2)
 
 MODEL_SRC = textwrap.dedent('''
     from BPTK_Py import Model
@@ -55,20 +139,81 @@ XMILE_SRC = '''<?xml version="1.0" encoding="utf-8"?>
 			<aux name="c1"><eqn>12</eqn></aux>
 			<aux name="c2"><eqn>13</eqn></aux>
 			<aux name="g0"><eqn>TIME</eqn><gf><xscale min="0" max="10"/><yscale min="0" max="100"/><ypts>21,26</ypts></gf></aux>
-			<aux name="h"><eqn>c2*g0</eqn></aux>
+			<aux name="g1"><eqn>TIME</eqn><gf><xscale min="0" max="10"/><yscale min="0" max="100"/><ypts>22,27</ypts></gf></aux>
+			<aux name="h"><eqn>c2*g1</eqn></aux>
 		</variables>
 	</model>
 </xmile>
 '''
 
 
-def view_of(sc):
+def pnames(model):
+    return XPOINTS if model == "xmile" else POINTS
+
+
+def def_rs(model):
+    return XRS if model == "xmile" else DEF_RS
+
+
+# ---------------------------------------------------------------- value forms (float / int / string = eval path)
+def ccode(v):
+    return int(eval(v)) if isinstance(v, str) else int(v)
+
+
+def pcode(v):
+    return K.pts_code(eval(v) if isinstance(v, str) else v)
+
+
+def const_val(v, style):
+    if style == "str":
+        return [f"{v}.0", f"{v - 1}.0 + 1", f"2*{v}/2"][v % 3]
+    if style == "int":
+        return int(v)
+    return float(v)
+
+
+def pts_render(v, style):
+    return str(K.pts_val(v)) if style == "str" else K.pts_val(v)
+
+
+def styles(case, where):
+    return {(kind, key): sty for w, kind, key, sty in case.get("str", []) if w == where}
+
+
+def mk_dict(case, where, d=None):
+    """harness dict {consts:{id:v}, pts:{id:v}, start, stop, dt} -> BPTK scenario / settings dictionary (fresh objects)"""
+    d = case.get(where) or {} if d is None else d
+    sty = styles(case, where)
+    pn = pnames(case["model"])
+    out = {}
+    if d.get("consts"):
+        out["constants"] = {CONSTS[k]: const_val(v, sty.get(("c", k))) for k, v in d["consts"].items()}
+    if d.get("pts"):
+        out["points"] = {pn[k]: pts_render(v, sty.get(("p", k))) for k, v in d["pts"].items()}
+    rs = {}
+    if d.get("start") is not None: rs["starttime"] = float(d["start"])
+    if d.get("stop") is not None: rs["stoptime"] = float(d["stop"])
+    if d.get("dt") is not None: rs["dt"] = d["dt"] / 2.0
+    if rs:
+        out["runspecs"] = rs
+    return out
+
+
+def base_vals(case, where_c, where_p, bc, bp):
+    sc, sp = styles(case, where_c), styles(case, where_p)
+    pn = pnames(case["model"])
+    return ({CONSTS[a]: const_val(v, sc.get(("c", a))) for a, v in bc.items()},
+            {pn[a]: pts_render(v, sp.get(("p", a))) for a, v in bp.items()})
+
+
+def view_of(sc, model="dsl"):
     mod = sc.model
-    return {"consts": {CONSTS.index(k): int(v) for k, v in sc.constants.items()},
-            "pts": {POINTS.index(k): K.pts_code(v) for k, v in sc.points.items()},
+    pn = pnames(model)
+    return {"consts": {CONSTS.index(k): ccode(v) for k, v in sc.constants.items()},
+            "pts": {pn.index(k): pcode(v) for k, v in sc.points.items()},
             "rs": (int(sc.starttime), int(sc.stoptime), int(sc.dt * 2)),
             "meqs": {k: int(mod.equations[CONSTS[k]](0.0)) for k in range(3)},
-            "mpts": {POINTS.index(k): K.pts_code(v) for k, v in mod.points.items() if k in POINTS},
+            "mpts": {pn.index(k): pcode(v) for k, v in mod.points.items() if k in pn},
             "mrs": (int(mod.starttime), int(mod.stoptime), int(mod.dt * 2))}
 
 
@@ -79,15 +224,22 @@ def fill(dst, src):
     return out
 
 
-def expected(case):
-    """reference semantics of the statement: scenario wins, base fills, later settings win; model's own otherwise"""
+def all_base(case):
     bc, bp = dict(case["bc"]), dict(case["bp"])
     for f in case.get("files2", []):
         bc.update(f[0]); bp.update(f[1])
-    d0, d = case["d0"], case.get("d") or {}
+    return bc, bp
+
+
+def expected(case, who="d0"):
+    """reference semantics of the statement: scenario wins, base fills, later settings win; model's own otherwise.
+    who = "d0": the addressed scenario (with the later settings `d`); "sib": the sibling; "none": a scenario without overrides"""
+    bc, bp = all_base(case)
+    d0 = case.get(who) or {} if who != "none" else {}
+    d = (case.get("d") or {}) if who == "d0" else {}
     consts = fill(d0.get("consts") or {}, bc); consts.update(d.get("consts") or {})
     pts = fill(d0.get("pts") or {}, bp); pts.update(d.get("pts") or {})
-    rs = list(DEF_RS)
+    rs = list(def_rs(case["model"]))
     for src in (d0, d):
         for j, key in enumerate(("start", "stop", "dt")):
             if src.get(key) is not None:
@@ -95,24 +247,62 @@ def expected(case):
     return {"consts": consts, "pts": pts, "rs": tuple(rs), "meqs": {**DEF_CONST, **consts}, "mpts": {**DEF_PTS, **pts}, "mrs": tuple(rs)}
 
 
-def model_line(case):
-    mrs = "/".join(map(str, DEF_RS)); mpts = K.st(DEF_PTS)
-    if case["channel"] == "dict":
-        return f"dict {mrs} {mpts} {K.st(case['bc'])} {K.st(case['bp'])} {K.dict_args(case['d0'])}"
+def file_list(case):
+    files = [(case["bc"], case["bp"])] + [tuple(f) for f in case.get("files2", [])]
+    order = case.get("order") or list(range(len(files)))
+    return [files[j] for j in order]            # the model reads the files in ANOTHER order than the code (multi_file_merge_n)
+
+
+def model_line(case, who="d0"):
+    mrs = "/".join(map(str, def_rs(case["model"]))); mpts = K.st(DEF_PTS)
+    d0 = case.get(who) or {}
+    if case["channel"] == "dict" or (who != "d0" and case["channel"] != "file"):
+        return f"dict {mrs} {mpts} {K.st(case['bc'])} {K.st(case['bp'])} {K.dict_args(d0)}"
     if case["channel"] == "file":
-        files = "|".join(f"{K.st(a)};{K.st(b)}" for a, b in [(case["bc"], case["bp"])] + case["files2"])
-        return f"file {mrs} {mpts} {files} {K.dict_args(case['d0'])}"
-    return f"settings {mrs} {mpts} {K.st(case['bc'])} {K.st(case['bp'])} {K.dict_args(case['d0'])} {K.dict_args(case['d'])}"
+        files = "|".join(f"{K.st(a)};{K.st(b)}" for a, b in file_list(case))
+        if who == "d0" and case.get("d"):
+            return f"fsettings {mrs} {mpts} {files} {K.dict_args(d0)} {K.dict_args(case['d'])}"
+        return f"file {mrs} {mpts} {files} {K.dict_args(d0)}"
+    return f"settings {mrs} {mpts} {K.st(case['bc'])} {K.st(case['bp'])} {K.dict_args(d0)} {K.dict_args(case.get('d') or {})}"
+
+
+def sd_(x):
+    return {} if x == "-" else {int(a.split(":")[0]): int(a.split(":")[1]) for a in x.split(",")}
+
+
+def rs_(x):
+    return tuple(int(a) for a in x.split("/"))
 
 
 def parse_model(line):
     kv = dict(x.split("=", 1) for x in line.split(" "))
-    def sd(x):
-        return {} if x == "-" else {int(a.split(":")[0]): int(a.split(":")[1]) for a in x.split(",")}
-    def rs(x):
-        return tuple(int(a) for a in x.split("/"))
-    return {"consts": sd(kv["consts"]), "pts": sd(kv["pts"]), "rs": rs(kv["rs"]), "meqs": {**DEF_CONST, **sd(kv["meqs"])},
-            "mpts": sd(kv["mpts"]), "mrs": rs(kv["mrs"])}
+    return {"consts": sd_(kv["consts"]), "pts": sd_(kv["pts"]), "rs": rs_(kv["rs"]), "meqs": {**DEF_CONST, **sd_(kv["meqs"])},
+            "mpts": sd_(kv["mpts"]), "mrs": rs_(kv["mrs"])}
+
+
+def parse_mview(line):
+    if line == "none":
+        return None
+    kv = dict(x.split("=", 1) for x in line.split(" "))
+    return {"consts": sd_(kv["consts"]), "pts": sd_(kv["pts"]), "rs": rs_(kv["rs"])}
+
+
+def parse_mbase(line):
+    kv = dict(x.split("=", 1) for x in line.split(" "))
+    return {"bc": sd_(kv["bc"]), "bp": sd_(kv["bp"])}
+
+
+def model_agrees(req, reply, real):
+    if isinstance(real, str):
+        return reply == real
+    try:
+        if req.startswith("mview"):
+            return parse_mview(reply) == real
+        if req.startswith("mbase"):
+            return parse_mbase(reply) == real
+        return parse_model(reply) == real
+    except Exception:
+        return False
 
 
 def frame_to_dict(res, mgr, scn):
@@ -120,8 +310,20 @@ def frame_to_dict(res, mgr, scn):
     return {eq: {float(t): float(v) for t, v in r[eq].items()} for eq in r}
 
 
-def write_file_case(root, n, case, xmile=False):
+def write_scenario_file(path, fmt, content):
+    if fmt == "yml":
+        import yaml
+        with open(path, "w") as f:
+            yaml.safe_dump({"Model": {"type": "sd", **content}}, f)
+    else:
+        with open(path, "w") as f:
+            json.dump(content, f)
+
+
+def write_file_case(root, n, case):
+    xmile = case["model"] == "xmile"
     sub = os.path.join(root, f"case{n}")
+    shutil.rmtree(sub, ignore_errors=True)
     os.makedirs(os.path.join(sub, "scenarios")); os.makedirs(os.path.join(sub, f"c07pkg{n}"))
     open(os.path.join(sub, f"c07pkg{n}", "__init__.py"), "w").close()
     if xmile:
@@ -131,44 +333,65 @@ def write_file_case(root, n, case, xmile=False):
         with open(os.path.join(sub, f"c07pkg{n}", "mod.py"), "w") as f:
             f.write(MODEL_SRC % {"start": float(DEF_RS[0]), "stop": float(DEF_RS[1]), "dt": DEF_RS[2] / 2.0, "consts": CONSTS,
                                  "pts": {POINTS[k]: K.pts_val(v) for k, v in DEF_PTS.items()}, "vals": [float(DEF_CONST[k]) for k in range(3)]})
-    def mgr(bc, bp, scns):
+    def mgr(where, bc, bp, scns):
         m = {"model": f"c07pkg{n}/" + ("xm" if xmile else "mod"), "scenarios": scns}
         if xmile:
             m["source"] = f"c07pkg{n}/xm.stmx"
-        if bc: m["base_constants"] = {CONSTS[a]: float(v) for a, v in bc.items()}
-        if bp: m["base_points"] = {POINTS[a]: K.pts_val(v) for a, v in bp.items()}
+        c, p = base_vals(case, where, where, bc, bp)
+        if c: m["base_constants"] = c
+        if p: m["base_points"] = p
         return {"mf": m}
-    with open(os.path.join(sub, "scenarios", "a.json"), "w") as f:
-        json.dump(mgr(case["bc"], case["bp"], {"s0": K.mk_dict(case["d0"])}), f)
+    fmt = case.get("fmt") or ["json"] * (1 + len(case["files2"]))
+    write_scenario_file(os.path.join(sub, "scenarios", "a." + fmt[0]), fmt[0],
+                        mgr("b", case["bc"], case["bp"], {"s0": mk_dict(case, "d0"), "sib": mk_dict(case, "sib")}))
     for j, (bc2, bp2) in enumerate(case["files2"]):
-        with open(os.path.join(sub, "scenarios", f"b{j}.json"), "w") as f:
-            json.dump(mgr(bc2, bp2, {f"t{j}": {}}), f)
+        write_scenario_file(os.path.join(sub, "scenarios", f"b{j}." + fmt[j + 1]), fmt[j + 1], mgr(f"f{j}", bc2, bp2, {f"t{j}": {}}))
     return sub
 
 
-SIB = {}      # case number -> {"sib"/"late": (view, results)}: sibling scenarios of the same manager without overrides
+SIB = {}      # case number -> {"views": {name: (view, results)}, "base": {...}} | {"error": ...}
 
 
-def sibling_views(b, n):
+def base_of(b, model):
+    mg = b.scenario_manager_factory.scenario_managers["mf"]
+    pn = pnames(model)
+    return {"bc": {CONSTS.index(k): ccode(v) for k, v in mg.base_constants.items()},
+            "bp": {pn.index(k): pcode(v) for k, v in mg.base_points.items()}}
+
+
+def sibling_views(b, n, model, names=("sib", "late")):
     """'Base values apply to every scenario of the manager unless the scenario overrides them': a sibling
     registered before, and one registered after, settings were supplied to s0 must still run with the base values"""
     try:
-        b.register_scenarios(scenarios={"late": {}}, scenario_manager="mf")
-        b.reset_scenario_cache(scenario_manager="mf", scenario="sib")
-        res = b.run_scenarios(scenarios=["sib", "late"], scenario_managers=["mf"], equations=list(EQS), series_names={}, return_format="dict")
-        SIB[n] = {name: (view_of(b.get_scenario("mf", name)), frame_to_dict(res, "mf", name)) for name in ("sib", "late")}
+        if "late" in names:
+            b.register_scenarios(scenarios={"late": {}}, scenario_manager="mf")
+            b.reset_scenario_cache(scenario_manager="mf", scenario="sib")
+        res = b.run_scenarios(scenarios=list(names), scenario_managers=["mf"], equations=list(EQS), series_names={}, return_format="dict")
+        SIB[n] = {"views": {name: (view_of(b.get_scenario("mf", name), model), frame_to_dict(res, "mf", name)) for name in names},
+                  "base": base_of(b, model)}
     except Exception as e:
         SIB[n] = {"error": f"{type(e).__name__}: {e}"}
+
+
+def xm_project(root):
+    """a project directory with the XMILE source; the repo's compiler produces c07xm/xm.py on first use"""
+    sub = os.path.join(root, "xmproj")
+    if not os.path.isdir(sub):
+        os.makedirs(os.path.join(sub, "c07xm"))
+        open(os.path.join(sub, "c07xm", "__init__.py"), "w").close()
+        with open(os.path.join(sub, "c07xm", "xm.stmx"), "w") as f:
+            f.write(XMILE_SRC)
+    return sub
 
 
 def run_case(case, root, n):
     """real code; returns (view, results dict eq -> {t: v}, error)"""
     from BPTK_Py import bptk
     buf = io.StringIO()
+    xm = case["model"] == "xmile"
     with contextlib.redirect_stdout(buf):
-        xm = case["model"] == "xmile"
         if case["channel"] == "file":
-            sub = write_file_case(root, n, case, xmile=xm)
+            sub = write_file_case(root, n, case)
             cwd = os.getcwd(); os.chdir(sub); sys.path.insert(0, sub)
             b = None
             try:
@@ -177,39 +400,57 @@ def run_case(case, root, n):
                 sc = mg.scenarios.get("s0") if mg else None
                 if sc is None or sc.model is None:
                     return None, None, "scenario not loaded: " + buf.getvalue()[-300:]
-                res = b.run_scenarios(scenarios=["s0"], scenario_managers=["mf"], equations=list(EQS), series_names={}, return_format="dict")
-                return (view_of(sc) if not xm else xm_view(sc)), frame_to_dict(res, "mf", "s0"), None
+                if case.get("d"):
+                    # settings supplied later to a scenario that came from a file (REST /run on the file-loaded manager)
+                    from BPTK_Py.server import BptkServer
+                    app = BptkServer(__name__, bptk_factory=lambda: b)
+                    resp = app.test_client().post("/run", json={"settings": {"mf": {"s0": mk_dict(case, "d")}}, "scenario_managers": ["mf"],
+                                                                "scenarios": ["s0"], "equations": list(EQS)})
+                    if resp.status_code != 200:
+                        return view_of(sc, case["model"]), {}, f"HTTP {resp.status_code}"
+                    res = json.loads(resp.data)
+                else:
+                    res = b.run_scenarios(scenarios=["s0"], scenario_managers=["mf"], equations=list(EQS), series_names={}, return_format="dict")
+                out = view_of(sc, case["model"]), frame_to_dict(res, "mf", "s0"), None
+                sibling_views(b, n, case["model"], names=("sib",) + (("t0",) if case["files2"] else ()))
+                return out
             finally:
-                os.chdir(cwd); sys.path.remove(sub)
                 if b is not None:
                     b.destroy()
-        base = K.build(DEF_CONST, DEF_PTS, DEF_RS)
+                os.chdir(cwd); sys.path.remove(sub)
+        cwd = os.getcwd()
+        if xm:
+            sub = xm_project(root)
+            os.chdir(sub); sys.path.insert(0, sub)
         b = bptk(); quiet_bptk_logging()
         try:
-            cfg = {"model": base}
-            if case["bc"]: cfg["base_constants"] = {CONSTS[a]: float(v) for a, v in case["bc"].items()}
-            if case["bp"]: cfg["base_points"] = {POINTS[a]: K.pts_val(v) for a, v in case["bp"].items()}
+            cfg = {"model": "c07xm/xm", "source": "c07xm/xm.stmx"} if xm else {"model": K.build(DEF_CONST, DEF_PTS, DEF_RS)}
+            c, p = base_vals(case, "b", "b", case["bc"], case["bp"])
+            if c: cfg["base_constants"] = c
+            if p: cfg["base_points"] = p
             b.register_scenario_manager({"mf": cfg})
-            b.register_scenarios(scenarios={"s0": K.mk_dict(case["d0"]), "sib": {}}, scenario_manager="mf")
+            b.register_scenarios(scenarios={"s0": mk_dict(case, "d0"), "sib": mk_dict(case, "sib")}, scenario_manager="mf")
             sc = b.get_scenario("mf", "s0")
+            if sc is None or sc.model is None:
+                return None, None, "scenario not instantiated: " + buf.getvalue()[-300:]
             if case["channel"] == "dict":
                 res = b.run_scenarios(scenarios=["s0"], scenario_managers=["mf"], equations=list(EQS), series_names={}, return_format="dict")
-                out = view_of(sc), frame_to_dict(res, "mf", "s0"), None
-                sibling_views(b, n)
+                out = view_of(sc, case["model"]), frame_to_dict(res, "mf", "s0"), None
+                sibling_views(b, n, case["model"])
                 return out
             if case["channel"] == "rest":
                 from BPTK_Py.server import BptkServer
                 app = BptkServer(__name__, bptk_factory=lambda: b)
-                resp = app.test_client().post("/run", json={"settings": {"mf": {"s0": K.mk_dict(case["d"])}}, "scenario_managers": ["mf"],
+                resp = app.test_client().post("/run", json={"settings": {"mf": {"s0": mk_dict(case, "d")}}, "scenario_managers": ["mf"],
                                                             "scenarios": ["s0"], "equations": list(EQS)})
                 if resp.status_code != 200:
-                    return view_of(sc), {}, f"HTTP {resp.status_code}"
-                out = view_of(sc), frame_to_dict(json.loads(resp.data), "mf", "s0"), None
-                sibling_views(b, n)
+                    return view_of(sc, case["model"]), {}, f"HTTP {resp.status_code}"
+                out = view_of(sc, case["model"]), frame_to_dict(json.loads(resp.data), "mf", "s0"), None
+                sibling_views(b, n, case["model"])
                 return out
             # session
             e = expected(case)
-            b.begin_session(scenarios=["s0"], scenario_managers=["mf"], settings={"mf": {"s0": K.mk_dict(case["d"])}}, equations=list(EQS),
+            b.begin_session(scenarios=["s0"], scenario_managers=["mf"], settings={"mf": {"s0": mk_dict(case, "d")}}, equations=list(EQS),
                             starttime=0.0, dt=e["rs"][2] / 2.0)
             out = {eq: {} for eq in EQS}
             for _ in range(40):
@@ -219,35 +460,38 @@ def run_case(case, root, n):
                 for eq, tv in (r.get("mf", {}).get("s0", {}) or {}).items():
                     for t, v in tv.items():
                         out.setdefault(eq, {})[float(t)] = float(v)
-            v = view_of(sc)
+            v = view_of(sc, case["model"])
             b.end_session()
-            sibling_views(b, n)
+            sibling_views(b, n, case["model"])
             return v, out, None
         finally:
             b.destroy()
+            if xm:
+                os.chdir(cwd); sys.path.remove(sub)
 
 
-def xm_view(sc):
-    mod = sc.model
-    return {"consts": {CONSTS.index(k): int(v) for k, v in sc.constants.items()},
-            "pts": {}, "rs": (int(sc.starttime), int(sc.stoptime), int(sc.dt * 2)),
-            "meqs": {k: int(mod.equations[CONSTS[k]](0.0)) for k in range(3)}, "mpts": {}, "mrs": None}
-
-
-def xm_oracle(consts):
-    """explicit Euler of the XMILE model of XMILE_SRC with the given constants (plain Python, no BPTK)"""
+def xm_oracle(consts, pts=None):
+    """explicit Euler of the XMILE model of XMILE_SRC with the given constants / graphical functions (plain Python, no BPTK)"""
     c = {**DEF_CONST, **consts}
+    p = {**DEF_PTS, **(pts or {})}
     dt, out = 0.5, {"s": {}, "f": {}, "h": {}}
-    def g0(t):
-        x = min(max(t, 0.0), 10.0)
-        return 21.0 + (26.0 - 21.0) * (x - 0.0) / 10.0
+    def g(j, t):
+        lo, hi = K.pts_val(p[j])
+        x = min(max(t, lo[0]), hi[0])
+        return (hi[1] - lo[1]) / (hi[0] - lo[0]) * (x - lo[0]) + lo[1]
     s = 0.0
     for k in range(9):
         t = k * dt
-        f = c[0] + g0(t) * c[1]
-        out["s"][t] = s; out["f"][t] = float(f); out["h"][t] = float(c[2] * g0(t))
+        f = c[0] + g(0, t) * c[1]
+        out["s"][t] = s; out["f"][t] = float(f); out["h"][t] = float(c[2] * g(1, t))
         s = s + dt * f
     return out
+
+
+def oracle(model, exp):
+    if model == "xmile":
+        return xm_oracle(exp["consts"], exp["pts"])
+    return K.oracle_run(exp["meqs"], exp["mpts"], exp["mrs"])
 
 
 def rand_case(rng, channel, model):
@@ -263,19 +507,44 @@ def rand_case(rng, channel, model):
             if rng.chance(1, 2): d["stop"] = rng.range(3, 6)
             if rng.chance(1, 2): d["dt"] = rng.choice([1, 2])
         return d
-    case = {"channel": channel, "model": model, "bc": store(3), "bp": store(2), "d0": dct(), "files2": []}
-    if channel in ("session", "rest"):
-        case["d"] = dct()
+    rs_ok = model == "dsl"                                   # the run-spec clause is for DSL models
+    case = {"channel": channel, "model": model, "bc": store(3), "bp": store(2), "d0": dct(rs_ok), "files2": []}
+    if channel in ("session", "rest") or (channel == "file" and rng.chance(1, 3)):
+        case["d"] = dct(rs_ok)
+    case["sib"] = dct(False) if rng.chance(1, 2) else {}
     if channel == "file":
-        # base values of the manager spread over further files, on keys not used by the first file (no duplicate base keys)
-        rest_c = [k for k in range(3) if k not in case["bc"]]
-        rest_p = [k for k in range(2) if k not in case["bp"]]
-        case["files2"] = [({k: rng.range(1, 9) for k in rest_c if rng.chance(1, 2)}, {k: rng.range(1, 9) for k in rest_p if rng.chance(1, 2)})]
-    if model == "xmile":
-        case["bp"] = {}; case["d0"].pop("pts", None)
-        for key in ("start", "stop", "dt"):
-            case["d0"].pop(key, None)                      # run-spec clause is for DSL models
-        case["files2"] = [(a, {}) for a, _ in case["files2"]]
+        # base values of the manager spread over 0..3 further files; a key is bound by one file only, or by several files
+        # that agree on its value (merge_consistent); formats JSON / YAML; the model reads the files in a shuffled order
+        used_c, used_p = dict(case["bc"]), dict(case["bp"])
+        for _ in range(rng.range(0, 3)):
+            fc, fp = {}, {}
+            for used, out, nk in ((used_c, fc, 3), (used_p, fp, 2)):
+                for k in range(nk):
+                    if rng.chance(1, 3):
+                        if k in used:
+                            if rng.chance(1, 2): out[k] = used[k]
+                        else:
+                            out[k] = used[k] = rng.range(1, 9)
+            case["files2"].append((fc, fp))
+        case["fmt"] = [rng.choice(["json", "json", "yml"]) for _ in range(1 + len(case["files2"]))]
+        case["order"] = rng.shuffle(range(1 + len(case["files2"])))
+    # value forms: some values travel as Python ints, some as strings (the `eval` path of change_equation / change_points /
+    # setup_constants / setup_points)
+    strs = []
+    where = [("b", case["bc"], case["bp"]), ("d0", case["d0"].get("consts") or {}, case["d0"].get("pts") or {}),
+             ("sib", case["sib"].get("consts") or {}, case["sib"].get("pts") or {})]
+    if "d" in case:
+        where.append(("d", case["d"].get("consts") or {}, case["d"].get("pts") or {}))
+    for j, (fc, fp) in enumerate(case["files2"]):
+        where.append((f"f{j}", fc, fp))
+    for w, cs, ps in where:
+        for k in cs:
+            r = rng.below(10)
+            if r < 2: strs.append([w, "c", k, "str"])
+            elif r < 3: strs.append([w, "c", k, "int"])
+        for k in ps:
+            if rng.chance(1, 5): strs.append([w, "p", k, "str"])
+    case["str"] = strs
     return case
 
 
@@ -290,7 +559,69 @@ FIXED = [
     {"channel": "rest", "model": "dsl", "bc": {}, "bp": {0: 3}, "d0": {}, "d": {"consts": {2: 9}, "pts": {0: 8}, "start": 1, "dt": 1}, "files2": []},
     {"channel": "file", "model": "xmile", "bc": {0: 4}, "bp": {}, "d0": {"consts": {1: 3}}, "files2": [({2: 8}, {})]},
     {"channel": "file", "model": "xmile", "bc": {}, "bp": {}, "d0": {}, "files2": [({}, {})]},
+    # wave 2: the sibling witness (Lean: C07_witness_shared_base) on the session and REST channels, both model types
+    {"channel": "session", "model": "dsl", "bc": {0: 2}, "bp": {0: 3}, "d0": {}, "d": {"consts": {0: 5}, "pts": {0: 7}}, "files2": []},
+    {"channel": "rest", "model": "dsl", "bc": {0: 2}, "bp": {0: 3}, "d0": {}, "d": {"consts": {0: 5}, "pts": {0: 7}}, "files2": []},
+    {"channel": "session", "model": "xmile", "bc": {0: 2}, "bp": {1: 3}, "d0": {}, "d": {"consts": {0: 5}, "pts": {1: 7}}, "files2": []},
+    {"channel": "rest", "model": "xmile", "bc": {1: 2}, "bp": {}, "d0": {"pts": {0: 4}}, "d": {"consts": {1: 5}}, "sib": {"consts": {2: 6}}, "files2": []},
+    {"channel": "dict", "model": "xmile", "bc": {0: 4}, "bp": {1: 6}, "d0": {"consts": {0: 7}, "pts": {0: 2}}, "files2": []},
+    {"channel": "file", "model": "dsl", "bc": {0: 2}, "bp": {0: 3}, "d0": {}, "d": {"consts": {0: 5}, "pts": {0: 7}, "stop": 3}, "files2": [({1: 6}, {})]},
+    # n files, YAML + JSON, a consistent duplicate, string-valued and int-valued settings
+    {"channel": "file", "model": "dsl", "bc": {0: 4}, "bp": {}, "d0": {"consts": {1: 3}, "pts": {1: 6}}, "sib": {"consts": {2: 5}},
+     "files2": [({2: 8}, {0: 2}), ({0: 4}, {}), ({1: 7}, {0: 2})], "fmt": ["yml", "json", "yml", "json"], "order": [3, 1, 0, 2],
+     "str": [["b", "c", 0, "str"], ["d0", "c", 1, "str"], ["d0", "p", 1, "str"], ["f0", "c", 2, "int"], ["f0", "p", 0, "str"]]},
+    {"channel": "dict", "model": "dsl", "bc": {0: 4}, "bp": {1: 6}, "d0": {"consts": {1: 7}, "pts": {0: 3}}, "files2": [],
+     "str": [["b", "c", 0, "str"], ["b", "p", 1, "str"], ["d0", "c", 1, "str"], ["d0", "p", 0, "str"]]},
+    {"channel": "rest", "model": "dsl", "bc": {}, "bp": {}, "d0": {}, "d": {"consts": {0: 6, 1: 7, 2: 8}, "pts": {0: 3}}, "files2": [],
+     "str": [["d", "c", 0, "str"], ["d", "c", 1, "str"], ["d", "c", 2, "int"], ["d", "p", 0, "str"]]},
 ]
+
+
+def norm_case(case):
+    case = copy.deepcopy(case)
+    case.setdefault("sib", {}); case.setdefault("str", []); case.setdefault("files2", [])
+    case["files2"] = [tuple(f) for f in case["files2"]]
+    return case
+
+
+def probe_owns_dicts(root):
+    """behavioural: settings supplied to one scenario without an own block must not reach a sibling without an own
+    block, the manager's base values, or a scenario registered afterwards — dict registration and scenario files"""
+    from BPTK_Py import bptk
+    detail = {}
+    stg = {"constants": {"c0": 9.0}, "points": {"p0": K.pts_val(9)}}
+    with contextlib.redirect_stdout(io.StringIO()):
+        b = bptk(); quiet_bptk_logging()
+        try:
+            b.register_scenario_manager({"mf": {"model": K.build(DEF_CONST, DEF_PTS, DEF_RS), "base_constants": {"c0": 4.0},
+                                                "base_points": {"p0": K.pts_val(4)}}})
+            b.register_scenarios(scenarios={"a": {}, "b": {}}, scenario_manager="mf")
+            b.get_scenario("mf", "a").configure_settings(copy.deepcopy(stg))
+            b.register_scenarios(scenarios={"late": {}}, scenario_manager="mf")
+            mg = b.scenario_manager_factory.scenario_managers["mf"]
+            detail["dict"] = all(ccode(x["c0"]) == 4 for x in (b.get_scenario("mf", "b").constants, b.get_scenario("mf", "late").constants, mg.base_constants)) \
+                and all(pcode(x["p0"]) == 4 for x in (b.get_scenario("mf", "b").points, b.get_scenario("mf", "late").points, mg.base_points))
+        except Exception as e:
+            detail["dict"] = False; detail["dict_error"] = f"{type(e).__name__}: {e}"
+        finally:
+            b.destroy()
+        case = norm_case({"channel": "file", "model": "dsl", "bc": {0: 4}, "bp": {0: 4}, "d0": {}, "files2": [({}, {})]})
+        sub = write_file_case(root, 9998, case)
+        cwd = os.getcwd(); os.chdir(sub); sys.path.insert(0, sub)
+        b = None
+        try:
+            b = bptk(); quiet_bptk_logging()
+            mg = b.scenario_manager_factory.scenario_managers["mf"]
+            mg.scenarios["s0"].configure_settings(copy.deepcopy(stg))
+            detail["file"] = all(ccode(x["c0"]) == 4 for x in (mg.scenarios["sib"].constants, mg.scenarios["t0"].constants, mg.base_constants)) \
+                and all(pcode(x["p0"]) == 4 for x in (mg.scenarios["sib"].points, mg.scenarios["t0"].points, mg.base_points))
+        except Exception as e:
+            detail["file"] = False; detail["file_error"] = f"{type(e).__name__}: {e}"
+        finally:
+            if b is not None:
+                b.destroy()
+            os.chdir(cwd); sys.path.remove(sub)
+    return detail
 
 
 def probe(root):
@@ -299,82 +630,151 @@ def probe(root):
     m = K.build(DEF_CONST, DEF_PTS, DEF_RS)
     SdSimulation(model=m, name="probe").change_runspecs(starttime=1.0, stoptime=3.0, dt=0.5)
     facts["runspecStartApplied"] = (m.starttime == 1.0)
-    case = {"channel": "file", "model": "dsl", "bc": {}, "bp": {}, "d0": {"start": 1, "stop": 3, "dt": 1}, "files2": []}
+    case = norm_case({"channel": "file", "model": "dsl", "bc": {}, "bp": {}, "d0": {"start": 1, "stop": 3, "dt": 1}, "files2": []})
     v, _, err = run_case(case, root, 9999)
+    SIB.pop(9999, None)
     facts["fileRunspecsKept"] = bool(v) and v["rs"] == (1, 3, 1)
+    facts["ownsDictsDetail"] = probe_owns_dicts(root)
+    facts["scenarioOwnsDicts"] = bool(facts["ownsDictsDetail"].get("dict")) and bool(facts["ownsDictsDetail"].get("file"))
     return facts
 
 
+FACTS = ("runspecStartApplied", "fileRunspecsKept", "scenarioOwnsDicts")
+WITNESS = {"runspecStartApplied": "C07_witness_start", "fileRunspecsKept": "C07_witness_file", "scenarioOwnsDicts": "C07_witness_shared_base"}
+
+
 def gen_lean(f):
-    a = "true" if f["runspecStartApplied"] else "false"
-    b = "true" if f["fileRunspecsKept"] else "false"
-    if f["runspecStartApplied"] and f["fileRunspecsKept"]:
+    bad = [k for k in FACTS if not f[k]]
+    if not bad:
         body = "theorem holds : C07_full cfg := C07_full_of_good cfg (by decide)\n#print axioms holds\n"
-    elif not f["runspecStartApplied"]:
-        body = "theorem violated : ¬ C07_full cfg := C07_witness_start cfg (by decide)\n#print axioms violated\n"
     else:
-        body = "theorem violated : ¬ C07_full cfg := C07_witness_file cfg (by decide)\n#print axioms violated\n"
+        body = f"theorem violated : ¬ C07_full cfg := {WITNESS[bad[0]]} cfg (by decide)\n#print axioms violated\n"
+    fields = ", ".join(f"{k} := {'true' if f[k] else 'false'}" for k in FACTS)
     return ("import Bptk.Props.C07\n/-! GENERATED by harness/props/c07.py from /repo on every run — do not edit. -/\n"
             "namespace Bptk.C07.Gen\n"
-            f"def cfg : Cfg := {{ runspecStartApplied := {a}, fileRunspecsKept := {b} }}\n" + body + "end Bptk.C07.Gen\n")
+            f"def cfg : Cfg := {{ {fields} }}\n" + body + "end Bptk.C07.Gen\n")
 
 
 def check_case(case, root, n):
-    """returns (real view, violations [(key, text)])"""
+    """returns (real view, violations [(key, text)], correspondence pairs [(request, real reply)])"""
+    case = norm_case(case)
     exp = expected(case)
+    ch, xm = case["channel"], case["model"] == "xmile"
+    tag = f"{ch}-xmile" if xm else ch
+    SIB.pop(n, None)
     try:
         v, res, err = run_case(case, root, n)
     except Exception as e:
-        return None, [(f"{case['channel']}-raises", f"{type(e).__name__}: {e}")]
+        if os.environ.get("VERIF_DEBUG"):
+            import traceback; traceback.print_exc()
+        return None, [(f"{ch}-raises", f"{type(e).__name__}: {e}")], []
     if err:
-        return v, [(f"{case['channel']}-error", err)]
+        return v, [(f"{ch}-error", err)], []
     viols = []
-    if case["model"] == "xmile":
-        for comp in ("consts", "meqs"):
-            if v[comp] != exp[comp]:
-                viols.append((f"{case['channel']}-xmile-{comp}", f"{comp}: real {v[comp]} expected {exp[comp]}"))
-        want = xm_oracle(exp["consts"])
-        if res != want and not viols:
-            viols.append((f"{case['channel']}-xmile-results", K.first_diff(res, want)))
-        return v, viols
     for comp in ("consts", "pts", "rs", "meqs", "mpts", "mrs"):
         if v[comp] != exp[comp]:
-            viols.append((f"{case['channel']}-{comp}", f"{comp}: real {v[comp]} expected {exp[comp]}"))
+            viols.append((f"{tag}-{comp}", f"{comp}: real {v[comp]} expected {exp[comp]}"))
             break
-    want = K.oracle_run(exp["meqs"], exp["mpts"], exp["mrs"])
-    if case["channel"] == "session":
+    want = oracle(case["model"], exp)
+    if ch == "session":
         want = {eq: {t: x for t, x in tv.items() if t >= 0.0} for eq, tv in want.items()}
-    if res != want:
-        viols.append((f"{case['channel']}-results", K.first_diff(res, want) + f"; model built directly with consts={exp['meqs']} points={exp['mpts']} runspecs={exp['mrs']}"))
+    if res != want and not (xm and viols):
+        viols.append((f"{tag}-results", K.first_diff(res, want) + f"; model built directly with consts={exp['meqs']} points={exp['mpts']} runspecs={exp['mrs']}"))
+    pairs = [(model_line(case), v)]
     sib = SIB.pop(n, None)
     if sib is not None and not viols:
-        bexp = expected({"bc": case["bc"], "bp": case["bp"], "d0": {}, "d": {}, "files2": []})
-        bwant = K.oracle_run(bexp["meqs"], bexp["mpts"], bexp["mrs"])
         if "error" in sib:
-            viols.append((f"{case['channel']}-sibling-raises", sib["error"]))
+            viols.append((f"{ch}-sibling-raises", sib["error"]))
         else:
-            for name in ("sib", "late"):
-                sv, sres = sib[name]
+            for name, (sv, sres) in sib["views"].items():
+                bexp = expected(case, "sib" if name == "sib" else "none")
+                bwant = oracle(case["model"], bexp)
+                what = {"sib": "registered before", "late": "registered after", "t0": "defined in another file than"}[name]
+                own = case["sib"] if name == "sib" else {}
                 for comp in ("consts", "pts", "meqs", "mpts"):
                     if sv[comp] != bexp[comp]:
-                        viols.append((f"{case['channel']}-sibling-{comp}", f"scenario '{name}' (no overrides, {'registered before' if name == 'sib' else 'registered after'} the settings for s0) {comp}: real {sv[comp]} expected the base values {bexp[comp]}"))
+                        viols.append((f"{ch}-sibling-{comp}", f"scenario '{name}' (own overrides {own}, {what} the settings for s0) {comp}: real {sv[comp]} "
+                                      f"expected own ⊕ base = {bexp[comp]}"))
                         break
                 else:
                     if sres != bwant:
-                        viols.append((f"{case['channel']}-sibling-results", f"scenario '{name}': " + K.first_diff(sres, bwant)))
+                        viols.append((f"{ch}-sibling-results", f"scenario '{name}': " + K.first_diff(sres, bwant)))
                 if viols:
                     break
-    return v, viols
+            bc, bp = all_base(case)
+            if not viols and sib["base"] != {"bc": bc, "bp": bp}:
+                viols.append((f"{ch}-manager-base", f"the manager's base values were rewritten: now {sib['base']}, registered {{'bc': {bc}, 'bp': {bp}}}"))
+            if not viols:
+                # the manager machine of the Lean model (MState / mstep / mview) on the same history
+                if ch == "file":
+                    pairs.append((model_line(case, "sib"), sib["views"]["sib"][0]))
+                else:
+                    mrs = "/".join(map(str, def_rs(case["model"])))
+                    pairs += [(f"mgr {mrs} {K.st(case['bc'])} {K.st(case['bp'])}", "ok"), (f"madd 0 {K.dict_args(case['d0'])}", "ok"),
+                              (f"madd 1 {K.dict_args(case['sib'])}", "ok")]
+                    if ch in ("session", "rest"):
+                        pairs.append((f"mconf 0 {K.dict_args(case.get('d') or {})}", "ok"))
+                    pairs.append((f"madd 2 {K.dict_args({})}", "ok"))
+                    sel = lambda x: {k: x[k] for k in ("consts", "pts", "rs")}
+                    pairs += [("mview 0", sel(v)), ("mview 1", sel(sib["views"]["sib"][0])), ("mview 2", sel(sib["views"]["late"][0])),
+                              ("mview 3", None), ("mbase", sib["base"])]
+    return v, viols, pairs
+
+
+def shrink(case, key, root):
+    """greedy: drop entries / files / value forms / later settings while the same finding class still shows"""
+    case = norm_case(case)
+    def fails(c):
+        try:
+            return any(k == key for k, _ in check_case(c, root, 7777)[1])
+        except Exception:
+            return False
+    def candidates(c):
+        for w in ("bc", "bp"):
+            for k in list(c[w]):
+                d = copy.deepcopy(c); del d[w][k]; yield d
+        for w in ("d0", "d", "sib"):
+            if c.get(w):
+                for kind in ("consts", "pts"):
+                    for k in list(c[w].get(kind) or {}):
+                        d = copy.deepcopy(c); del d[w][kind][k]
+                        if not d[w][kind]: del d[w][kind]
+                        yield d
+                for key_ in ("start", "stop", "dt"):
+                    if c[w].get(key_) is not None:
+                        d = copy.deepcopy(c); del d[w][key_]; yield d
+        for j in range(len(c["files2"])):
+            d = copy.deepcopy(c); del d["files2"][j]
+            d["str"] = [s for s in d["str"] if not s[0].startswith("f")]
+            d.pop("order", None); d.pop("fmt", None); yield d
+        for j in range(len(c["str"])):
+            d = copy.deepcopy(c); del d["str"][j]; yield d
+        if c.get("fmt") and any(f != "json" for f in c["fmt"]):
+            d = copy.deepcopy(c); d["fmt"] = ["json"] * len(c["fmt"]); yield d
+    changed = True
+    while changed:
+        changed = False
+        for cand in candidates(case):
+            if fails(cand):
+                case = norm_case(cand); changed = True
+                break
+    return case
 
 
 def run(chk):
     quiet_bptk_logging()
     root = scratch_dir("c07")
     cwd = os.getcwd()
+    import threading
+    hook = threading.excepthook
+    # the repo's FileMonitor threads stat a relative path once a second; a case that has already left its project
+    # directory makes a dying monitor print FileNotFoundError — noise, not a result
+    threading.excepthook = lambda a: None if issubclass(a.exc_type, FileNotFoundError) else hook(a)
     try:
         os.chdir(root)
         _run(chk, root)
     finally:
+        threading.excepthook = hook
         os.chdir(cwd)
         shutil.rmtree(root, ignore_errors=True)
 
@@ -385,48 +785,70 @@ def _run(chk, root):
     ok, why = chk.prove(gen_lean(facts))
     chk.cov["trusted_base"] = [
         "Lean 4.33 kernel; axioms propext, Quot.sound (audited per run via #print axioms)",
-        "hand-written model lean/Bptk/Core/C07.lean of add_scenarios / load_scenarios + __get_all_base_constants/points / configure_settings / REST settings block / SdRunner application; tied to the code by two probes and the correspondence run",
+        "hand-written model lean/Bptk/Core/C07.lean of add_scenarios / load_scenarios + __get_all_base_constants/points / configure_settings / REST settings block / SdRunner application, and of the manager with its base dictionaries as the one shareable cell (MState/mstep); tied to the code by three probes and the correspondence run",
         "the simulated numbers are not modelled in Lean: the harness compares the real results with the model built directly with the effective values (DSL) / a plain-Python Euler loop (XMILE model)",
-        "json round trip of scenario files, Flask test client for POST /run",
+        "string-valued settings: the number / point list a string denotes is computed by the harness with Python's eval (value codes in the model are opaque)",
+        "json / yaml round trip of scenario files, Flask test client for POST /run, the XMILE compiler (subject of C03/C04)",
     ]
-    chk.assumptions = ["base values of one manager spread over several files use distinct keys (the code documents duplicates as lossy)",
-                       "run-spec clauses only for SD DSL models; XMILE-sourced models: constants (file channel with base constants over two files)",
-                       "session channel: begin_session is given the scenario's dt (that the session takes its dt from an argument is C09's subject)"]
+    chk.assumptions = ["base values of one manager spread over several files: a key is bound by one file, or by several files that agree on its value (the code documents conflicting duplicates as lossy)",
+                       "run-spec clauses only for SD DSL models; XMILE-sourced models: constants and graphical functions on all four channels",
+                       "session channel: begin_session is given the scenario's dt (that the session takes its dt from an argument is C09's subject)",
+                       "a scenario dictionary has a `constants` / `points` key only when it lists at least one entry"]
     rng = chk.rng.fork("c07")
-    cases = [dict(c) for c in FIXED]
+    cases = [norm_case(c) for c in FIXED]
     per = 25 if chk.quick else 150
     for ch in ("dict", "file", "session", "rest"):
         for _ in range(per if ch != "file" else max(3, per // 2)):
             cases.append(rand_case(rng, ch, "dsl"))
-    for _ in range(6 if chk.quick else 30):
-        cases.append(rand_case(rng, "file", "xmile"))
-    chk.cov["rule"] = ("fixed cases (no override, the run-spec witnesses, one-of-two point tables, multi-file base constants, XMILE) + seeded random cases per channel "
-                       "(dict / file over two JSON files / session / REST) with random constants, points, run specs at manager and scenario level; a case = (channel, model type, "
-                       "base constants, base points, scenario dictionary, later settings); non-trivial = at least one override")
-    req, real, first, dist = [f"cfg {1 if facts['runspecStartApplied'] else 0} {1 if facts['fileRunspecsKept'] else 0}"], ["ok"], {}, {}
+    nx = 6 if chk.quick else 30
+    for ch in ("file", "dict", "session", "rest"):
+        for _ in range(nx):
+            cases.append(rand_case(rng, ch, "xmile"))
+    chk.cov["rule"] = ("fixed cases (no override, the run-spec witnesses, one-of-two point tables, multi-file base constants, XMILE, the sibling witness per channel, n files in YAML+JSON with "
+                       "string/int-valued settings) + seeded random cases per channel (dict / scenario files: 1..4 files, JSON or YAML, consistent duplicate base keys, model reads them in a shuffled "
+                       "order / session / REST) x model type (DSL, XMILE-sourced) with random constants, points, run specs at manager and scenario level, values as float / int / string; a case = "
+                       "(channel, model type, base constants, base points, scenario dictionary, sibling dictionary, later settings, further files, formats, value forms); every case also registers a "
+                       "sibling before and one after the settings and runs them; non-trivial = at least one override")
+    req, real, first, dist = [f"cfg {' '.join('1' if facts[k] else '0' for k in FACTS)}"], ["ok"], {}, {}
+    forms = {"str": 0, "int": 0, "yml_files": 0, "files": 0, "sibling_checks": 0}
     for n, case in enumerate(cases):
-        v, viols = check_case(case, root, n)
+        v, viols, pairs = check_case(case, root, n)
         dist[f"{case['channel']}/{case['model']}"] = dist.get(f"{case['channel']}/{case['model']}", 0) + 1
+        for s in case.get("str", []):
+            forms[s[3]] += 1
+        forms["yml_files"] += sum(1 for f in case.get("fmt", []) if f == "yml"); forms["files"] += len(case.get("fmt", []))
+        forms["sibling_checks"] += 1 if len(pairs) > 1 else 0
         chk.case(json.dumps(case, sort_keys=True), nontrivial=bool(case["bc"] or case["bp"] or case["d0"] or case.get("d")),
                  sample=case if n % 9 == 0 else None)
-        if case["model"] == "dsl" and v is not None:
-            req.append(model_line(case)); real.append(v)
+        for r, p in pairs:
+            req.append(r); real.append(p)
         for key, text in viols:
             first.setdefault(key, (case, text))
     chk.cov["case_distribution"] = dist
+    chk.cov["value_forms_and_files"] = forms
     chk.cov["traces_validated_against_impl"] = len(req) - 1
     model = drive("C07", req)
-    diff = next((i for i, (a, b) in enumerate(zip(model, real)) if (a != b if isinstance(b, str) else parse_model(a) != b)), None)
+    diff = next((i for i, (a, b) in enumerate(zip(model, real)) if not model_agrees(req[i], a, b)), None)
+    if diff is None and len(model) != len(real):
+        diff = min(len(model), len(real))
     for key, (case, text) in first.items():
-        chk.add_finding(key, f"{case['channel']} channel, {case['model']} model, base_constants={case['bc']} base_points={case['bp']} scenario={case['d0']} "
-                        f"settings={case.get('d')} files2={case['files2']}: {text}", {"case": case})
+        small = shrink(case, key, root)
+        vv = [t for k, t in check_case(small, root, 7778)[1] if k == key]
+        chk.add_finding(key, f"{small['channel']} channel, {small['model']} model, base_constants={small['bc']} base_points={small['bp']} scenario={small['d0']} "
+                        f"sibling={small['sib']} settings={small.get('d')} files2={small['files2']} value forms={small['str']}: {vv[0] if vv else text}", {"case": small})
+    if not facts["scenarioOwnsDicts"] and not any("sibling" in k or "manager-base" in k for k in first):
+        chk.add_finding("shared-base-dict", "probe: a scenario without an own constants/points block carries the manager's base dictionary itself; configure_settings "
+                        "({'constants': {'c0': 9.0}, 'points': {'p0': …}}) on one scenario of a manager with base_constants {'c0': 4.0}, base_points {'p0': …} changed a sibling, "
+                        f"a later scenario or the manager's base values (dict registration ok: {facts['ownsDictsDetail'].get('dict')}, scenario files ok: {facts['ownsDictsDetail'].get('file')})",
+                        {"probe": facts["ownsDictsDetail"], "theorem": "Bptk.C07.C07_witness_shared_base"})
     if not ok:
         chk.add_finding("obligation", f"proof obligations of C07 no longer check: {why}", {"theorem": "Bptk.C07.Gen.holds", "detail": why}, found_input=False)
     if diff is not None and not first:
         chk.add_finding("correspondence", f"model and implementation disagree on request {req[diff]!r}",
-                        {"request": req[diff], "model": model[diff], "impl": real[diff]}, found_input=False)
+                        {"request": req[diff], "context": req[max(0, diff - 8):diff + 1], "model": model[diff] if diff < len(model) else None,
+                         "impl": real[diff] if diff < len(real) else None}, found_input=False)
     elif diff is not None:
-        chk.notes["correspondence_diff"] = {"request": req[diff], "model": model[diff], "impl": str(real[diff])}
+        chk.notes["correspondence_diff"] = {"request": req[diff], "model": model[diff] if diff < len(model) else None, "impl": str(real[diff]) if diff < len(real) else None}
 
 
 def replay(path):
@@ -438,11 +860,13 @@ def replay(path):
         if isinstance(o, dict):
             return {(int(k) if isinstance(k, str) and k.isdigit() else k): fix(v) for k, v in o.items()}
         return o
+    if "case" not in r:
+        print("no concrete input stored:", r); return 1
     case = fix(r["case"])
     case["files2"] = [tuple(x) for x in case.get("files2", [])]
     root = scratch_dir("c07"); cwd = os.getcwd(); os.chdir(root)
     try:
-        v, viols = check_case(case, root, 0)
+        v, viols, _ = check_case(case, root, 0)
     finally:
         os.chdir(cwd); shutil.rmtree(root, ignore_errors=True)
     print("case:", case); print("real view:", v); print("violations on the current tree:", viols)
